@@ -271,6 +271,17 @@ func init() {
 var c05Prefixes = textPrefixes([]string{"urn:uuid:", "0123456789abcdef", "-"})
 
 func runC05(c *rt.Ctx) {
+	soloRun(c, "uu")
+	retainedAcrossCollections(c, "ID.MarshalText / DefaultFormatter(nil, URN)", 256, func(i int) ([]byte, string) {
+		id := uu.ID{Higher: uint64(i)*0x9e3779b97f4a7c15 + 1, Lower: uint64(i)*0xbf58476d1ce4e5b9 + 7}
+		plain := fmt.Sprintf("%08x-%04x-%04x-%04x-%012x", id.Higher>>32, id.Higher>>16&0xffff, id.Higher&0xffff, id.Lower>>48, id.Lower&0xffffffffffff)
+		if i%2 == 0 {
+			b, _ := id.MarshalText()
+			return b, plain
+		}
+		b, _ := uu.DefaultFormatter(nil, id, uu.FormatURN)
+		return b, "urn:uuid:" + plain
+	})
 	callerEditsReturnedErrors(c, map[string]func() error{
 		"uu.DefaultParser[string](x, 0)":       func() error { _, err := uu.DefaultParser("x", 0); return err },
 		"uu.DefaultParser[string](digit g, 0)": func() error { _, err := uu.DefaultParser("f81d4fae-7dec-11d0-a765-00a0c91e6bfg", 0); return err },
@@ -567,6 +578,45 @@ func runC05(c *rt.Ctx) {
 		}
 		tripleHistories(c, steps)
 	}
+	// many digit positions wrong at once: counters of invalid digits, accumulated flags and checksums that cancel out
+	c.Parallel("many-invalid-digits", 0, func(w *rt.W) {
+		plain := "f81d4fae-7dec-11d0-a765-00a0c91e6bf6"
+		var digitPos []int
+		for i := range plain {
+			if plain[i] != '-' {
+				digitPos = append(digitPos, i)
+			}
+		}
+		bads := []byte{'x', 'g', 'G', '*', ' ', '-', 0xff, 'Z', '/', ':', '@', '`', 0x00, 'o', 0x80}
+		n := 0
+		for _, bad := range bads {
+			for k := 1; k <= 32; k++ {
+				for variant := 0; variant < 3; variant++ {
+					n++
+					if n%w.NShards != w.Shard {
+						continue
+					}
+					b := []byte(plain)
+					for j := 0; j < k; j++ {
+						pos := digitPos[j] // the first k
+						switch variant {
+						case 1:
+							pos = digitPos[31-j] // the last k
+						case 2:
+							pos = digitPos[(j*7+int(bad))%32] // scattered
+						}
+						b[pos] = bad
+					}
+					for _, r := range []uu.Rule{0, uu.RuleDisableURN, uu.RuleDisableUpperCaseDigits} {
+						c05Parse(w, string(b), r, true)
+						c05Parse(w, "urn:uuid:"+string(b), r, false)
+					}
+					w.ClassN("many-invalid-digits", 1)
+				}
+			}
+		}
+	})
+	c.Require("many-invalid-digits", 1200)
 	coldStart(c, "C05", 12)
 	c.Exhaustive("all 6 pairs of separator positions x all 65,536 byte pairs on one valid text")
 	c.Require("separator-pair-substitution", 390000)
